@@ -438,9 +438,11 @@ func (cd *cmdDispatcher) dispatchHandler(ctx *cmdContext) (output respValue) {
 	}
 
 	var result respValue
+	simBeforeLock(&cd.dss.mu, "cd.dss.mu")
 	cd.dss.mu.Lock()
 	phook := cd.dss.phook
 	cd.dss.mu.Unlock()
+	simAfterUnlock(&cd.dss.mu, "cd.dss.mu")
 
 	if phook != nil {
 		hook := *phook
